@@ -60,6 +60,19 @@ Deliver(isClosed, ns) ==
   IF ns = <<>> \/ isClosed THEN <<>>
   ELSE <<Head(ns)>> \o Deliver(Head(ns).k \in {"E", "C"}, Tail(ns))
 
+\* C07, final observer: fault.stage = 99: the observer's own VALUE callback panics at its (fault.at + 1)-th invocation - the observer then
+\* receives that failure once, as an Error carrying the context of the value, and nothing afterwards (the stream is over: the source is
+\* released).  fault.stage = 98: the observer's TERMINAL callback panics - nothing observable follows and nothing escapes.
+ObsFault == 99
+ObsTermFault == 98
+NCount(ns) == Cardinality({j \in 1..Len(ns) : ns[j].k = "N"})
+RECURSIVE DeliverF(_, _, _)
+DeliverF(isClosed, ns, cnt) ==
+  IF ns = <<>> \/ isClosed THEN <<>>
+  ELSE LET n == Head(ns) IN
+       IF n.k = "N" /\ fault.stage = ObsFault /\ cnt = fault.at THEN <<n, E(ErrFault, n.c)>>
+       ELSE <<n>> \o DeliverF(n.k \in {"E", "C"}, Tail(ns), IF n.k = "N" THEN cnt + 1 ELSE cnt)
+
 AnyClosed(ss) == \E i \in 1..Len(ss) : ss[i].closed
 
 \* subscription: stages are subscribed from the last one upwards; each may emit before subscribing its upstream
@@ -82,7 +95,7 @@ Init ==
   /\ srcSub = 0 /\ srcTorn = 0 /\ srcDone = FALSE /\ unsub = FALSE /\ closed = FALSE
   /\ log = <<>> /\ nitems = 0 /\ nillegal = 0
   /\ h = <<>>
-  /\ fault \in {f \in Faults : f.stage <= Len(chain)}
+  /\ fault \in {f \in Faults : f.stage <= Len(chain) \/ f.stage >= 98}
   /\ nsubs = 0 /\ prev = [sub |-> 0, torn |-> 0]
 
 \* Subscribe - also a RE-subscription of the same pipeline object once the previous subscription is closed (C12): stage
@@ -94,7 +107,7 @@ Subscribe ==
          \* C07: a panic inside the subscribe function of the source reaches the subscriber as one Error notification
          srcPanics == fault.stage = -1 /\ r0.reached
          rf == IF srcPanics THEN PushFrom(chain, r0.sts, 1, <<E(ErrFault, SubCtx)>>) ELSE [sts |-> r0.sts, out |-> <<>>]
-         d == Deliver(FALSE, r0.out \o rf.out)
+         d == DeliverF(FALSE, r0.out \o rf.out, 0)
          cl == \E j \in 1..Len(d) : d[j].k \in {"E", "C"}
          nprev == IF phase = "new" THEN prev ELSE [sub |-> prev.sub + srcSub, torn |-> prev.torn + srcTorn]
          nsub == IF r0.reached THEN 1 ELSE 0
@@ -118,7 +131,7 @@ Push(n) ==
   /\ srcDone => nillegal < MaxIllegal
   /\ LET live == srcSub = 1 /\ srcTorn = 0 /\ ~srcDone          \* the source's own subscriber still forwards
          r == IF live THEN PushFrom(chain, sts, 1, <<n>>) ELSE [sts |-> sts, out |-> <<>>]
-         d == Deliver(closed, r.out)
+         d == DeliverF(closed, r.out, NCount(log))
          cl == closed \/ \E j \in 1..Len(d) : d[j].k \in {"E", "C"}
      IN /\ sts' = r.sts
         /\ log' = log \o d
